@@ -478,7 +478,7 @@ pub fn map_space(tb: &Tables, tier: Tier) -> Vec<Maps> {
                 out.push(Maps { v: vec![], o: vec![(i, one(a, 3)), ((i + 1) % no, one(b, 5))], q: vec![] });
             }
         }
-        for (k, n) in ["Owner's.sol", "\"quoted\".sol", "back\\slash.sol", "bell\u{7}.sol", "nul\u{0}.sol", "trailing .sol", " leading.sol", "dot..sol", "semi;colon.sol", "percent%41.sol", "amp&amp;.sol", "<b>.sol"].iter().enumerate() {
+        for (k, n) in ["Owner's.sol", "\"quoted\".sol", "back\\slash.sol", "bell\u{7}.sol", "nul\u{0}.sol", "trailing .sol", " leading.sol", "dot..sol", "semi;colon.sol", "percent%41.sol", "amp&amp;.sol", "<b>.sol", "./A.sol", "././B.sol", "../C.sol", "/abs/D.sol", "dir/E.sol", "dir/./F.sol", "~/G.sol", "C:\\H.sol"].iter().enumerate() {
             out.push(Maps { v: vec![(k % nv, one(n, 2))], o: vec![(k % no, one(n, 2))], q: vec![(k % nq, one(n, 2))] });
         }
     }
